@@ -712,7 +712,7 @@ pub mod __verif {
             stack: &[(Enc, Option<usize>, Option<usize>)],
             cap: usize,
         ) -> Self {
-            let mut nodes = Vec::with_capacity(cap.max(stack.len()));
+            let mut nodes = Vec::with_capacity(cap);
             for (e, ll, lr) in stack {
                 nodes.push((
                     dec(*e),
@@ -736,8 +736,9 @@ pub mod __verif {
             (enc(x), lpm_ptr(a), lpm_ptr(b))
         }
         pub fn __verif_rehome(&mut self, cap: usize) {
-            let mut fresh = Vec::with_capacity(cap.max(self.nodes.len()));
-            let mut tmp = Vec::with_capacity(cap.max(self.nodes.len()));
+            assert!(self.nodes.len() <= cap);
+            let mut fresh = Vec::with_capacity(cap);
+            let mut tmp = Vec::with_capacity(cap);
             while let Some(x) = self.nodes.pop() {
                 tmp.push(x);
             }
@@ -754,7 +755,7 @@ pub mod __verif {
             stack: &[Enc],
             cap: usize,
         ) -> Self {
-            let mut nodes = Vec::with_capacity(cap.max(stack.len()));
+            let mut nodes = Vec::with_capacity(cap);
             for e in stack {
                 nodes.push(dec(*e));
             }
